@@ -2,6 +2,7 @@ package c17
 
 import (
 	"fmt"
+	"runtime/metrics"
 	"sort"
 	"strings"
 
@@ -31,6 +32,7 @@ type record struct {
 	panic   string // Go panic raised while executing or observing (never expected)
 	nfuncs  int
 	outcome string // ok | dynamic | steplimit | other-error
+	guard   bool   // the memory guard cancelled this execution: the record must not be compared
 }
 
 const maxEvents = 20000
@@ -362,9 +364,57 @@ func progMeta(p *starlark.Program) []kv {
 	return m
 }
 
+// Memory guard. Generated programs can double a list or an integer at every step
+// (for x in l + [..]: l.extend(l)), which the step limit does not bound. The step hook (build tag
+// verif) looks at the heap size before every instruction that can allocate much and cancels the
+// thread synchronously once it exceeds the limit; such a case is discarded, never judged.
+var guard struct {
+	on     bool
+	fired  bool
+	limit  uint64 // heap size at which the running execution is cancelled
+	sample []metrics.Sample
+	ops    [256]bool
+}
+
+const guardGrowth = 96 << 20 // bytes the heap may grow during one execution
+
+func init() {
+	guard.sample = []metrics.Sample{{Name: "/memory/classes/heap/objects:bytes"}}
+	want := map[string]bool{"call": true, "call_var": true, "call_kw": true, "call_var_kw": true, "plus": true, "star": true,
+		"inplace_add": true, "pipe": true, "inplace_pipe": true, "ltlt": true, "percent": true, "makelist": true, "append": true}
+	for op := 0; op < 256; op++ {
+		var name string
+		func() {
+			defer func() { recover() }()
+			name = strings.ToLower(starlark.VerifOpcodeName(uint8(op)))
+		}()
+		guard.ops[op] = want[name]
+	}
+	starlark.VerifStepHook = func(th *starlark.Thread, _ *starlark.Function, _ uint32, op uint8) {
+		if !guard.on || !guard.ops[op] {
+			return
+		}
+		metrics.Read(guard.sample)
+		if guard.sample[0].Value.Kind() == metrics.KindUint64 && guard.sample[0].Value.Uint64() > guard.limit {
+			guard.on = false
+			guard.fired = true
+			th.Cancel("C17 memory guard")
+		}
+	}
+}
+
 // execute initialises the program on a fresh thread with a fresh environment and observes it.
-func execute(p *starlark.Program, corpus bool, maxSteps uint64) *record {
+func execute(p *starlark.Program, corpus bool, maxSteps uint64, useGuard bool) *record {
 	rec := &record{}
+	guard.on, guard.fired = useGuard, false
+	if useGuard {
+		metrics.Read(guard.sample)
+		guard.limit = guard.sample[0].Value.Uint64() + guardGrowth
+	}
+	defer func() {
+		guard.on = false
+		rec.guard = guard.fired
+	}()
 	h := &host{rec: rec, seenFn: map[string]bool{}, fnSeen: map[*starlark.Function]bool{}, corpus: corpus}
 	pn := sl.Safe(func() {
 		rec.prog = progMeta(p)
@@ -373,6 +423,9 @@ func execute(p *starlark.Program, corpus bool, maxSteps uint64) *record {
 		th.Load = h.load
 		th.SetMaxExecutionSteps(maxSteps)
 		g, err := p.Init(th, h.env())
+		if guard.fired {
+			return // the values may be enormous and the record is never used
+		}
 		rec.steps = th.ExecutionSteps()
 		rec.err = canon.Error(err)
 		switch e := err.(type) {
